@@ -81,6 +81,25 @@ SPECS = {
             unknowns = ["x", "y", "z"]
             if unknowns"""),
     ],
+    "C05": [
+        ("hht_history_coef", SIMU, "            coefC = dt * (alpha - 1) * (gamma / (2 * beta) - 1)", "            coefC = dt * (alpha - 1) * (gamma / beta - 1)"),
+        ("newmark_corrector_gamma", SIMU, """            vt_np1 = v_n + dt * (1 - gamma) * a_n
+
+            a_np1 = (u_np1 - ut_np1) / (beta * dt**2)""", """            vt_np1 = v_n + dt * (1 - beta) * a_n
+
+            a_np1 = (u_np1 - ut_np1) / (beta * dt**2)"""),
+        ("midpoint_coefK", SIMU, "            coefK = 0.5\n            coefC = 1 / dt", "            coefK = 1\n            coefC = 1 / dt"),
+        ("hht_newmark_K_shift_dropped", SIMU, "            b -= alpha * K @ u_n\n", "            b -= 0 * alpha * K @ u_n\n"),
+        ("euler_implicit_history_v", SIMU, "            b += (1 / dt * M) @ v_n\n", "            b += (1 / dt * M) @ (0 * v_n)\n"),
+        ("parabolic_predictor", SIMU, """            ut_np1 = u_n + (1 - alpha) * dt * v_n
+
+            b += 1 / (alpha * dt) * C @ ut_np1""", """            ut_np1 = u_n + alpha * dt * v_n
+
+            b += 1 / (alpha * dt) * C @ ut_np1"""),
+        ("evaluate_hht_at", SIMU, "            a_t = (1 - alpha) * a_np1 + alpha * a_n\n\n        elif self.algo == AlgoType.midpoint:", "            a_t = a_np1\n\n        elif self.algo == AlgoType.midpoint:"),
+        ("explicit_update_uses_new_v", SIMU, "            u_np1 = u_n + dt * v_n\n            v_np1 = v_n + dt * a_np1", "            v_np1 = v_n + dt * a_np1\n            u_np1 = u_n + dt * v_np1"),
+        ("hht_newmark_gamma_free", SIMU, "            gamma = 1 / 2 + alpha\n", "            gamma = gamma\n"),
+    ],
 }
 
 
